@@ -4,6 +4,7 @@ import (
 	"fmt"
 	"go/types"
 	"sort"
+	"strings"
 )
 
 // Val is the translator's view of a Go (or ghost) value: a tuple of SMT terms.
@@ -48,14 +49,14 @@ type (
 
 // State is one symbolic execution state.
 type State struct {
-	pc    T
-	vars  map[types.Object]Val
-	ghost map[string]Val
-	objs  map[int]Val
-	heap  T // SHeap: byte regions
-	cheap T // SHeap: regions of cell-encoded struct slices (see cells.go); kept apart so that writing cells never touches bytes
-	nextR T // Int: next fresh region id
-	held  map[string]T
+	pc       T
+	vars     map[types.Object]Val
+	ghost    map[string]Val
+	objs     map[int]Val
+	heap     T // SHeap: byte regions
+	cheap    T // SHeap: regions of cell-encoded struct slices (see cells.go); kept apart so that writing cells never touches bytes
+	nextR    T // Int: next fresh region id
+	held     map[string]T
 	lockSnap *State // the state right after the most recent Lock of a monitored lock (read by atlock(); never modified)
 }
 
@@ -205,11 +206,22 @@ func (fc *FnCtx) valIte(c T, a, b Val, hint string) Val {
 	case VStruct:
 		if y, ok := b.(VStruct); ok {
 			nf := make(map[string]Val, len(x.F))
-			for k, xv := range x.F {
-				if yv, ok := y.F[k]; ok {
-					nf[k] = fc.valIte(c, xv, yv, hint+"."+k)
+			// a field materialised on one side only is materialised on the other (as that side's unknown value):
+			// `if c { x.f = v }` must not forget x.f on the path that assigned it
+			for _, k := range sortedKeys(x.F) {
+				if _, ok := y.F[k]; !ok && fieldType(y.Typ, k) != nil {
+					fc.structField(y, k, hint)
 				}
-				// a field materialised on one side only is dropped (re-materialised lazily as unknown)
+			}
+			for _, k := range sortedKeys(y.F) {
+				if _, ok := x.F[k]; !ok && fieldType(x.Typ, k) != nil {
+					fc.structField(x, k, hint)
+				}
+			}
+			for _, k := range sortedKeys(x.F) {
+				if yv, ok := y.F[k]; ok {
+					nf[k] = fc.valIte(c, x.F[k], yv, hint+"."+k)
+				}
 			}
 			return VStruct{x.Typ, nf}
 		}
@@ -307,9 +319,27 @@ func (fc *FnCtx) merge2(a, b *State) *State {
 			n.vars[k] = fc.valIte(c, av, bv, k.Name())
 		}
 	}
+	// The object an (unknown) pointer refers to is allocated at its first dereference ("ptr:<id>" -> object). When only
+	// one of the two paths has dereferenced the pointer, the mapping is kept and the object becomes "that path's value
+	// on that path, unknown on the other" -- so `if c { p.f = v }` is remembered after the join.
+	onlyA, onlyB := map[int]bool{}, map[int]bool{}
+	unknownLike := func(v Val) Val {
+		if sv, ok := v.(VStruct); ok {
+			return VStruct{sv.Typ, map[string]Val{}}
+		}
+		return fc.havocLike(v, "unk")
+	}
 	for k, av := range a.ghost {
 		bv, ok := b.ghost[k]
 		if !ok {
+			if strings.HasPrefix(k, "ptr:") {
+				if iv, isInt := av.(VInt); isInt {
+					if cst, isC := constOf(iv.T); isC {
+						onlyA[int(cst.Int64())] = true
+						continue // keep n.ghost[k] (cloned from a)
+					}
+				}
+			}
 			delete(n.ghost, k)
 			continue
 		}
@@ -317,9 +347,22 @@ func (fc *FnCtx) merge2(a, b *State) *State {
 			n.ghost[k] = fc.valIte(c, av, bv, "g_"+k)
 		}
 	}
+	for k, bv := range b.ghost {
+		if _, ok := a.ghost[k]; !ok && strings.HasPrefix(k, "ptr:") {
+			if iv, isInt := bv.(VInt); isInt {
+				if cst, isC := constOf(iv.T); isC {
+					onlyB[int(cst.Int64())] = true
+					n.ghost[k] = bv
+				}
+			}
+		}
+	}
 	for k, av := range a.objs {
 		bv, ok := b.objs[k]
 		if !ok {
+			if onlyA[k] {
+				n.objs[k] = fc.valIte(c, av, unknownLike(av), fmt.Sprintf("o%d", k))
+			}
 			continue
 		}
 		if !sameVal(av, bv) {
@@ -328,7 +371,11 @@ func (fc *FnCtx) merge2(a, b *State) *State {
 	}
 	for k, bv := range b.objs {
 		if _, ok := a.objs[k]; !ok {
-			n.objs[k] = bv
+			if onlyB[k] {
+				n.objs[k] = fc.valIte(c, unknownLike(bv), bv, fmt.Sprintf("o%d", k))
+			} else {
+				n.objs[k] = bv
+			}
 		}
 	}
 	if a.heap.S != b.heap.S {
